@@ -513,7 +513,8 @@ func (w *dworld) runKV(sc []string, c deliveryCase, drySteps []fault.Step) {
 	}
 	r.Eval(key)
 	valid, all := w.reports(cred)
-	faultName := c.Store + "|" + c.Label + "|" + c.Answer
+	// one signature per store and answer: the scenario and the step are in the text (and in the replay case)
+	faultName := c.Store + "|" + c.Answer
 	if c.Step2 > 0 {
 		faultName += "|then:" + c.Answer2
 	}
@@ -532,11 +533,11 @@ func (w *dworld) runKV(sc []string, c deliveryCase, drySteps []fault.Step) {
 	what += fmt.Sprintf("; then, with the fault gone and the notifier's contract applied: %s; last error of the revocation delivery: %v. ", strings.Join(logs, "; "), revLog.LastErr)
 	switch {
 	case revLog.State == "finished":
-		r.Violation("C01|delivery|revocation-finished-not-effective|"+c.Scenario+"|"+faultName+only,
+		r.Violation("C01|delivery|revocation-finished-not-effective|"+faultName+only,
 			what+fmt.Sprintf("The receiver reported the validly signed revocation as processed, yet %v report the revoked credential as valid", valid), c)
 	case transient || sc[c.At] != "rev":
 		// the revocation met only time-outs / cancellations (or no fault at all) and is lost or stuck
-		r.Violation("C01|delivery|received-revocation-lost|"+c.Scenario+"|"+faultName+"|"+revLog.State+only,
+		r.Violation("C01|delivery|received-revocation-lost|"+faultName+"|"+revLog.State+only,
 			what+fmt.Sprintf("A time-out / cancellation is what the product documents as recoverable, but the validly signed revocation node V received is %s and %v keep reporting the revoked credential as valid", revLog.State, valid), c)
 	default:
 		// documented behaviour (ambassador.handleError: other storage errors cannot be recognised, Reprocess repairs): not judged
